@@ -1,15 +1,24 @@
 //! C04 — a compiled table reads back as the table that was written.  See DESIGN.md §3 C04.
 //!
 //! SPACE ENUMERATED
-//!   source 1 (X2): for every registered owned type T (registry generated by build.rs from the
-//!     repository's own declarations), every value `T::deserialize(tape)` whose tape has at most k
-//!     non-zero choices (`vcore::explore`), scalars/lengths/options/variants from the alphabets in
-//!     `tde::Alphabets`;
-//!   source 2 (parse-derived): `T::read(bytes)` for every table of every corpus font whose tag has a
-//!     registered top-level type, and for every font-test-data byte blob × every registered type.
-//! ORACLES  strong / stability, exactly as in DESIGN C04 (see `strong` and `stability` below).
-//! DOMAIN   `domain::Schema::verdict` — schema-derived consistency; values outside are counted and
-//!          never judged.
+//!   source 1 (X2): for every registered owned type T, every value `T::deserialize(tape)` whose tape
+//!     has at most k non-zero choices (`vcore::explore` order, one task per first deviation); k per
+//!     type is recorded (`per_type[..].k_completed`): all types at k, and k+1 for every type whose
+//!     ≤k pass yields at most `extend_below` values.  Alphabets: `tde::Alphabets` (scalars, lengths),
+//!     all enum variants, {None, Some}, flag words from the schema's declared bits, tags from
+//!     `tde::TAGS`.
+//!   source 2 (parse-derived): `read(bytes)` → owned for every table of every corpus font whose tag has
+//!     a registered top-level type (distinct (type, bytes, read-args) only), and for every
+//!     font-test-data byte blob against the type(s) its name designates.
+//!   REGISTRY: build.rs lists every write-fonts type with `FontRead` (generated + the hand-written
+//!     lookup enums/lists); `adaptors()` adds read-with-args tables with a hand-written reader; the
+//!     remaining read-with-args tables and the serde-less glyf types are listed in the evidence.
+//! ORACLES  `strong` / `stability`, as in DESIGN C04.
+//! DOMAIN   `domain::Schema::verdict` — consistency derived from resources/codegen_inputs/*.rs plus
+//!          three small explicit tables for hand-written types (all printed in the evidence); values
+//!          outside are counted as outside_domain{reason} and never judged.
+//! DEVELOPMENT SWITCHES (env): C04_K, C04_EXTEND override the bounds (shown in `bounds`);
+//!          C04_ONLY=x2|corpus|blobs restricts the sources and marks the run non-exhaustive.
 
 mod domain;
 mod tde;
@@ -39,13 +48,34 @@ fn main() {
 // type-erased per-type operations
 // ---------------------------------------------------------------------------------------------
 
-pub trait Owned:
-    for<'a> FontRead<'a> + FontWrite + Validate + PartialEq + std::fmt::Debug + Serialize + DeserializeOwned
-{
+pub trait Owned: FontWrite + Validate + PartialEq + std::fmt::Debug + Serialize + DeserializeOwned {}
+impl<T> Owned for T where T: FontWrite + Validate + PartialEq + std::fmt::Debug + Serialize + DeserializeOwned {}
+
+/// Read arguments that come from other tables of the same font (corpus values of read-with-args types).
+#[derive(Clone, Copy, Debug, Default)]
+pub struct FontArgs {
+    pub num_glyphs: u16,
+    pub number_of_h_metrics: u16,
+    pub number_of_long_ver_metrics: u16,
 }
-impl<T> Owned for T where
-    T: for<'a> FontRead<'a> + FontWrite + Validate + PartialEq + std::fmt::Debug + Serialize + DeserializeOwned
-{
+
+/// How bytes become an owned `T`.  `Plain` = `T::read(bytes)` (every generated `FontRead` type).
+/// Types whose reader needs arguments get a hand-written adaptor (`adaptors` below) that takes the
+/// arguments from the value that was written (`like`) or, for a corpus table, from the font.
+pub trait Reader<T>: 'static {
+    fn read(bytes: &[u8], like: Option<&T>, font: Option<&FontArgs>) -> Result<T, read_fonts::ReadError>;
+    /// the read arguments `read(.., Some(like), ..)` will use, in the order of the schema's
+    /// `#[read_args(..)]` — the schema predicates bind them so that e.g. `#[count(add($num_glyphs, 1))]`
+    /// is checked against what the adaptor supplies
+    fn root_args(_like: &T) -> Vec<i128> {
+        vec![]
+    }
+}
+pub struct Plain;
+impl<T: for<'a> FontRead<'a>> Reader<T> for Plain {
+    fn read(bytes: &[u8], _: Option<&T>, _: Option<&FontArgs>) -> Result<T, read_fonts::ReadError> {
+        T::read(FontData::new(bytes))
+    }
 }
 
 pub struct TypeOps {
@@ -57,7 +87,9 @@ pub struct TypeOps {
     /// run exactly one tape
     pub x2_one: fn(&Ctx, &TypeOps, &[u32], &mut Local),
     /// parse-derived value from bytes; returns whether the bytes parsed
-    pub parsed: fn(&Ctx, &TypeOps, &[u8], &str, bool, &mut Local) -> bool,
+    pub parsed: fn(&Ctx, &TypeOps, &[u8], &str, bool, Option<&FontArgs>, &mut Local) -> bool,
+    /// "FontRead" or the name of the hand adaptor
+    pub reader: &'static str,
 }
 
 impl TypeOps {
@@ -66,14 +98,24 @@ impl TypeOps {
     }
 }
 
-pub fn ops<T: Owned>(module: &'static str, name: &'static str, tag: Option<&'static str>) -> TypeOps {
+pub fn ops<T: Owned + for<'a> FontRead<'a>>(module: &'static str, name: &'static str, tag: Option<&'static str>) -> TypeOps {
+    ops_with::<T, Plain>(module, name, tag, "FontRead")
+}
+
+pub fn ops_with<T: Owned, R: Reader<T>>(
+    module: &'static str,
+    name: &'static str,
+    tag: Option<&'static str>,
+    reader: &'static str,
+) -> TypeOps {
     TypeOps {
         module,
         name,
         tag,
-        x2: x2_all::<T>,
-        x2_one: x2_one::<T>,
-        parsed: parsed::<T>,
+        x2: x2_all::<T, R>,
+        x2_one: x2_one::<T, R>,
+        parsed: parsed::<T, R>,
+        reader,
     }
 }
 
@@ -84,6 +126,8 @@ pub struct Ctx<'a> {
     pub tier_name: &'static str,
     pub k: usize,
     pub cap_per_type: u64,
+    /// a type whose ≤k pass yields at most this many values is also explored at k+1
+    pub extend_below: u64,
 }
 
 #[derive(Default)]
@@ -99,6 +143,7 @@ pub struct Local {
     samples: Vec<Value>,
     capped: Vec<String>,
     machinery: Vec<String>,
+    k_completed: usize,
 }
 
 impl Local {
@@ -123,6 +168,121 @@ impl Local {
 }
 
 // ---------------------------------------------------------------------------------------------
+// hand adaptors for tables whose reader needs arguments
+// ---------------------------------------------------------------------------------------------
+
+mod adapt {
+    use super::{FontArgs, Reader};
+    use read_fonts::{FontData, ReadError};
+    use write_fonts::from_obj::ToOwnedTable;
+    use write_fonts::tables as wt;
+
+    fn need<A>(a: Option<A>) -> Result<A, ReadError> {
+        a.ok_or(ReadError::InvalidFormat(0xA465))
+    }
+
+    /// hmtx: (numberOfHMetrics, numGlyphs) = (h_metrics.len(), h_metrics.len() + left_side_bearings.len())
+    pub struct HmtxR;
+    impl Reader<wt::hmtx::Hmtx> for HmtxR {
+        fn root_args(v: &wt::hmtx::Hmtx) -> Vec<i128> {
+            vec![v.h_metrics.len() as i128, (v.h_metrics.len() + v.left_side_bearings.len()) as i128]
+        }
+        fn read(b: &[u8], like: Option<&wt::hmtx::Hmtx>, font: Option<&FontArgs>) -> Result<wt::hmtx::Hmtx, ReadError> {
+            let (n, g) = need(
+                like.map(|v| (Self::root_args(v)[0] as u16, Self::root_args(v)[1] as u16))
+                    .or(font.map(|f| (f.number_of_h_metrics, f.num_glyphs))),
+            )?;
+            read_fonts::tables::hmtx::Hmtx::read(FontData::new(b), n, g).map(|t| t.to_owned_table())
+        }
+    }
+    pub struct VmtxR;
+    impl Reader<wt::vmtx::Vmtx> for VmtxR {
+        fn root_args(v: &wt::vmtx::Vmtx) -> Vec<i128> {
+            vec![v.v_metrics.len() as i128, (v.v_metrics.len() + v.top_side_bearings.len()) as i128]
+        }
+        fn read(b: &[u8], like: Option<&wt::vmtx::Vmtx>, font: Option<&FontArgs>) -> Result<wt::vmtx::Vmtx, ReadError> {
+            let (n, g) = need(
+                like.map(|v| (Self::root_args(v)[0] as u16, Self::root_args(v)[1] as u16))
+                    .or(font.map(|f| (f.number_of_long_ver_metrics, f.num_glyphs))),
+            )?;
+            read_fonts::tables::vmtx::Vmtx::read(FontData::new(b), n, g).map(|t| t.to_owned_table())
+        }
+    }
+    /// STAT AxisValueArray: axisValueCount = axis_values.len()
+    pub struct AxisValueArrayR;
+    impl Reader<wt::stat::AxisValueArray> for AxisValueArrayR {
+        fn root_args(v: &wt::stat::AxisValueArray) -> Vec<i128> {
+            vec![v.axis_values.len() as i128]
+        }
+        fn read(b: &[u8], like: Option<&wt::stat::AxisValueArray>, _: Option<&FontArgs>) -> Result<wt::stat::AxisValueArray, ReadError> {
+            let n = need(like.map(|v| Self::root_args(v)[0] as u16))?;
+            read_fonts::tables::stat::AxisValueArray::read(FontData::new(b), n).map(|t| t.to_owned_table())
+        }
+    }
+    /// sbix / Strike: numGlyphs = glyph_data_offsets.len() - 1 of the (first) strike
+    pub struct SbixR;
+    impl Reader<wt::sbix::Sbix> for SbixR {
+        fn root_args(v: &wt::sbix::Sbix) -> Vec<i128> {
+            vec![v.strikes.first().map(|s| s.glyph_data_offsets.len().saturating_sub(1) as i128).unwrap_or(0)]
+        }
+        fn read(b: &[u8], like: Option<&wt::sbix::Sbix>, font: Option<&FontArgs>) -> Result<wt::sbix::Sbix, ReadError> {
+            let n = need(
+                like.map(|v| Self::root_args(v)[0] as u16)
+                    .or(font.map(|f| f.num_glyphs)),
+            )?;
+            read_fonts::tables::sbix::Sbix::read(FontData::new(b), n).map(|t| t.to_owned_table())
+        }
+    }
+    pub struct StrikeR;
+    impl Reader<wt::sbix::Strike> for StrikeR {
+        fn root_args(v: &wt::sbix::Strike) -> Vec<i128> {
+            vec![v.glyph_data_offsets.len().saturating_sub(1) as i128]
+        }
+        fn read(b: &[u8], like: Option<&wt::sbix::Strike>, _: Option<&FontArgs>) -> Result<wt::sbix::Strike, ReadError> {
+            let n = need(like.map(|v| Self::root_args(v)[0] as u16))?;
+            read_fonts::tables::sbix::Strike::read(FontData::new(b), n).map(|t| t.to_owned_table())
+        }
+    }
+    /// GPOS BaseArray: markClassCount = number of anchors of the (first) base record
+    pub struct BaseArrayR;
+    impl Reader<wt::gpos::BaseArray> for BaseArrayR {
+        fn root_args(v: &wt::gpos::BaseArray) -> Vec<i128> {
+            vec![v.base_records.first().map(|r| r.base_anchors.len() as i128).unwrap_or(0)]
+        }
+        fn read(b: &[u8], like: Option<&wt::gpos::BaseArray>, _: Option<&FontArgs>) -> Result<wt::gpos::BaseArray, ReadError> {
+            let n = need(like.map(|v| Self::root_args(v)[0] as u16))?;
+            read_fonts::tables::gpos::BaseArray::read(FontData::new(b), n).map(|t| t.to_owned_table())
+        }
+    }
+    pub struct Mark2ArrayR;
+    impl Reader<wt::gpos::Mark2Array> for Mark2ArrayR {
+        fn root_args(v: &wt::gpos::Mark2Array) -> Vec<i128> {
+            vec![v.mark2_records.first().map(|r| r.mark2_anchors.len() as i128).unwrap_or(0)]
+        }
+        fn read(b: &[u8], like: Option<&wt::gpos::Mark2Array>, _: Option<&FontArgs>) -> Result<wt::gpos::Mark2Array, ReadError> {
+            let n = need(like.map(|v| Self::root_args(v)[0] as u16))?;
+            read_fonts::tables::gpos::Mark2Array::read(FontData::new(b), n).map(|t| t.to_owned_table())
+        }
+    }
+}
+
+/// registry entries for read-with-args types (hand-written; the rest of READ_WITH_ARGS_TYPES is
+/// listed in the evidence as not covered as a root type — they are still covered inside their
+/// parent tables)
+fn adaptors() -> Vec<TypeOps> {
+    use write_fonts::tables as wt;
+    vec![
+        ops_with::<wt::hmtx::Hmtx, adapt::HmtxR>("hmtx", "Hmtx", Some("hmtx"), "value: (h_metrics.len, h_metrics.len + left_side_bearings.len); corpus: hhea.numberOfHMetrics, maxp.numGlyphs"),
+        ops_with::<wt::vmtx::Vmtx, adapt::VmtxR>("vmtx", "Vmtx", Some("vmtx"), "value: (v_metrics.len, v_metrics.len + top_side_bearings.len); corpus: vhea.numOfLongVerMetrics, maxp.numGlyphs"),
+        ops_with::<wt::stat::AxisValueArray, adapt::AxisValueArrayR>("stat", "AxisValueArray", None, "value: axis_values.len"),
+        ops_with::<wt::sbix::Sbix, adapt::SbixR>("sbix", "Sbix", Some("sbix"), "value: strikes[0].glyph_data_offsets.len - 1; corpus: maxp.numGlyphs"),
+        ops_with::<wt::sbix::Strike, adapt::StrikeR>("sbix", "Strike", None, "value: glyph_data_offsets.len - 1"),
+        ops_with::<wt::gpos::BaseArray, adapt::BaseArrayR>("gpos", "BaseArray", None, "value: base_records[0].base_anchors.len"),
+        ops_with::<wt::gpos::Mark2Array, adapt::Mark2ArrayR>("gpos", "Mark2Array", None, "value: mark2_records[0].mark2_anchors.len"),
+    ]
+}
+
+// ---------------------------------------------------------------------------------------------
 // the oracles
 // ---------------------------------------------------------------------------------------------
 
@@ -136,7 +296,10 @@ fn err_kind<E: std::fmt::Debug>(e: &E) -> String {
 
 /// Known defects get the identity the coordinator files them under; every other difference gets the
 /// generic `"<Type> round trip: <path> <class>"`, so a different defect has a different identity.
-fn identity_for(type_name: &str, d: &vser::Diff, written: &Value) -> String {
+fn identity_for(schema: &Schema, type_name: &str, d: &vser::Diff, written: &Value) -> String {
+    // the defect is named after the innermost struct that owns the differing field, so that one
+    // defect seen through several containing tables has one identity
+    let generic = format!("{} round trip: {} {}", d.owner, d.rel, d.class);
     let is_null = |k: &str| written.get(k).map(|v| v.is_null()).unwrap_or(false);
     if type_name == "Avar"
         && d.path == "axis_segment_maps"
@@ -154,13 +317,41 @@ fn identity_for(type_name: &str, d: &vser::Diff, written: &Value) -> String {
     {
         return "Colr round trip: v1 table with only base_glyph_list compiles as v0".into();
     }
-    format!("{type_name} round trip: {} {}", d.path, d.class)
+    // one root cause seen through several tables: `ComputedArray::new` derives the element count as
+    // byte_len / element_size, so an array of zero-size records (e.g. regions of a 0-axis region
+    // list) re-reads empty.  Recognised only when the schema types the field as ComputedArray, the
+    // re-read array is empty and every written element consists of nothing but absent fields and empty arrays.
+    let is_computed = schema
+        .structs
+        .get(&d.owner)
+        .map(|v| v.iter().any(|s| s.fields.iter().any(|f| f.owned == d.rel && f.ty.starts_with("ComputedArray"))))
+        .unwrap_or(false);
+    let zero_size = |e: &Value| {
+        e.as_object()
+            .map(|o| {
+                o.iter().all(|(k, x)| {
+                    k.starts_with('$')
+                        || x.is_null()
+                        || x.as_array().map(|a| a.is_empty()).unwrap_or(false)
+                        || x.get("bits").and_then(|b| b.as_u64()) == Some(0) // an explicit empty format word
+                })
+            })
+            .unwrap_or(false)
+    };
+    if is_computed
+        && d.class == "re-read array shorter"
+        && d.reread.as_array().map(|a| a.is_empty()).unwrap_or(false)
+        && d.written.as_array().map(|a| a.iter().all(zero_size)).unwrap_or(false)
+    {
+        return format!("ComputedArray round trip: zero-size records re-read as an empty array ({}.{})", d.owner, d.rel);
+    }
+    generic
 }
 
 /// STRONG ORACLE.  `v.validate()` Ok ⇒ `b = dump_table(v)` does not panic and is Ok or PackingFailed;
 /// `v' = T::read(b)` is Ok; `v' == v` (whole-remainder arrays: written prefix); `dump_table(v') == b`.
 /// `stage` is "" for directly judged values and " (re-read value)" for the stability oracle.
-fn strong<T: Owned>(
+fn strong<T: Owned, R: Reader<T>>(
     ctx: &Ctx,
     ops: &TypeOps,
     v: &T,
@@ -173,8 +364,8 @@ fn strong<T: Owned>(
     match guard(|| v.validate()) {
         Err(p) => {
             ctx.run.violation(
-                &format!("{t} validate panics{stage}: {} in {}", p.kind(), p.site()),
-                &p.message,
+                &format!("{t} validate panics: {} in {}", p.kind(), p.site()),
+                &format!("{}{stage}", p.message),
                 case(),
             );
             return;
@@ -189,8 +380,8 @@ fn strong<T: Owned>(
     let b = match guard(|| dump_table(v)) {
         Err(p) => {
             ctx.run.violation(
-                &format!("{t} dump_table panics on a validated value{stage}: {} in {}", p.kind(), p.site()),
-                &p.message,
+                &format!("{t} dump_table panics on a validated value: {} in {}", p.kind(), p.site()),
+                &format!("{}{stage}", p.message),
                 case(),
             );
             return;
@@ -201,8 +392,8 @@ fn strong<T: Owned>(
         }
         Ok(Err(e)) => {
             ctx.run.violation(
-                &format!("{t} dump_table fails after validate Ok{stage}: {}", err_kind(&e)),
-                &format!("{e:?}"),
+                &format!("{t} dump_table fails after validate Ok: {}", err_kind(&e)),
+                &format!("{e:?}{stage}"),
                 case(),
             );
             return;
@@ -210,19 +401,19 @@ fn strong<T: Owned>(
         Ok(Ok(b)) => b,
     };
     l.trans += 1;
-    let v1 = match guard(|| T::read(FontData::new(&b))) {
+    let v1 = match guard(|| R::read(&b, Some(v), None)) {
         Err(p) => {
             ctx.run.violation(
-                &format!("{t} read of compiled bytes panics{stage}: {} in {}", p.kind(), p.site()),
-                &format!("{} ; bytes={}", p.message, hex(&b)),
+                &format!("{t} read of compiled bytes panics: {} in {}", p.kind(), p.site()),
+                &format!("{}{stage} ; bytes={}", p.message, hex(&b)),
                 case(),
             );
             return;
         }
         Ok(Err(e)) => {
             ctx.run.violation(
-                &format!("{t} round trip: compiled bytes do not read back ({}){stage}", err_kind(&e)),
-                &format!("{e:?}; compiled bytes = {}", hex(&b[..b.len().min(200)])),
+                &format!("{t} round trip: compiled bytes do not read back ({})", err_kind(&e)),
+                &format!("{e:?}{stage}; compiled bytes = {}", hex(&b[..b.len().min(200)])),
                 case(),
             );
             return;
@@ -235,33 +426,50 @@ fn strong<T: Owned>(
             l.machinery.push(format!("{t}: typed rendering failed"));
             return;
         };
-        let mut tolerated = 0;
-        let d = vser::first_diff(&a, &bj, &|s, f| ctx.schema.is_remainder(s, f), &mut tolerated);
+        let mut tolerated = (0u64, 0u64);
+        let d = vser::first_diff(
+            &a,
+            &bj,
+            &|s, f| {
+                if ctx.schema.is_remainder(s, f) {
+                    vser::TOL_REMAINDER
+                } else if domain::HINT_FIELDS.iter().any(|(hs, hf, _)| *hs == s && *hf == f) {
+                    vser::TOL_HINT_WHEN_NONE
+                } else {
+                    vser::TOL_NONE
+                }
+            },
+            &mut tolerated,
+        );
         match d {
             Some(d) => {
-                let id = identity_for(t, &d, &a);
+                let id = identity_for(&ctx.schema, t, &d, &a);
                 ctx.run.violation(
-                    &format!("{id}{stage}"),
+                    &id,
                     &format!(
-                        "at {}: written {} / re-read {}; compiled bytes = {}",
+                        "root type {t}{stage}, at {}: written {} / re-read {}; compiled bytes = {}",
                         d.at,
-                        d.written,
-                        d.reread,
+                        vser::brief(&d.written),
+                        vser::brief(&d.reread),
                         hex(&b[..b.len().min(200)])
                     ),
                     case(),
                 );
                 return;
             }
-            None if tolerated > 0 => {
+            None if tolerated.0 > 0 => {
                 // whole-remainder array re-read longer with the written prefix intact
                 l.cnt("remainder_array_prefix_compared");
                 prefix_tolerated = true;
             }
+            None if tolerated.1 > 0 => {
+                // equal except for hint fields written as None (recompilation is still compared)
+                l.cnt("equal_modulo_hint_fields_written_as_none");
+            }
             None => {
                 ctx.run.violation(
-                    &format!("{t} round trip: values compare unequal but render identically{stage}"),
-                    "PartialEq reports a difference that the serde rendering does not show",
+                    &format!("{t} round trip: values compare unequal but render identically"),
+                    &format!("PartialEq reports a difference that the serde rendering does not show{stage}"),
                     case(),
                 );
                 return;
@@ -274,8 +482,8 @@ fn strong<T: Owned>(
             Ok(Ok(b2)) => {
                 if b2 != b {
                     ctx.run.violation(
-                        &format!("{t} recompile of the re-read value gives different bytes{stage}"),
-                        &format!("first = {} / second = {}", hex(&b[..b.len().min(200)]), hex(&b2[..b2.len().min(200)])),
+                        &format!("{t} recompile of the re-read value gives different bytes"),
+                        &format!("{stage} first = {} / second = {}", hex(&b[..b.len().min(200)]), hex(&b2[..b2.len().min(200)])),
                         case(),
                     );
                     return;
@@ -283,16 +491,16 @@ fn strong<T: Owned>(
             }
             Ok(Err(e)) => {
                 ctx.run.violation(
-                    &format!("{t} recompile of the re-read value fails{stage}: {}", err_kind(&e)),
-                    &format!("{e:?}"),
+                    &format!("{t} recompile of the re-read value fails: {}", err_kind(&e)),
+                    &format!("{e:?}{stage}"),
                     case(),
                 );
                 return;
             }
             Err(p) => {
                 ctx.run.violation(
-                    &format!("{t} recompile of the re-read value panics{stage}: {} in {}", p.kind(), p.site()),
-                    &p.message,
+                    &format!("{t} recompile of the re-read value panics: {} in {}", p.kind(), p.site()),
+                    &format!("{}{stage}", p.message),
                     case(),
                 );
                 return;
@@ -315,7 +523,7 @@ fn strong<T: Owned>(
 /// `v1 = T::read(dump_table(v0))` readable, the strong oracle must hold for v1 (v1 is a parse-derived
 /// value): read(dump(v1)) == v1 and dump(v1) is a fixpoint of dump∘read∘dump.  Nothing is demanded
 /// of v0 itself; panics / errors on the way to v1 are counted, not judged.
-fn stability<T: Owned>(ctx: &Ctx, ops: &TypeOps, v0: &T, case: &dyn Fn() -> Value, nontrivial: bool, l: &mut Local) {
+fn stability<T: Owned, R: Reader<T>>(ctx: &Ctx, ops: &TypeOps, v0: &T, case: &dyn Fn() -> Value, nontrivial: bool, l: &mut Local) {
     match guard(|| v0.validate()) {
         Ok(Ok(())) => {}
         Ok(Err(_)) => {
@@ -342,7 +550,7 @@ fn stability<T: Owned>(ctx: &Ctx, ops: &TypeOps, v0: &T, case: &dyn Fn() -> Valu
         }
     };
     l.trans += 1;
-    let v1 = match guard(|| T::read(FontData::new(&b0))) {
+    let v1 = match guard(|| R::read(&b0, Some(v0), None)) {
         Ok(Ok(v1)) => v1,
         Ok(Err(_)) => {
             l.cnt("stability_v0_bytes_unreadable");
@@ -358,8 +566,16 @@ fn stability<T: Owned>(ctx: &Ctx, ops: &TypeOps, v0: &T, case: &dyn Fn() -> Valu
             return;
         }
     };
+    // v1 itself must describe one table: owned(read(..)) replaces unreadable sub-tables by
+    // `Default`, which can be schema-inconsistent (e.g. a default `Device` lacks its packed word)
+    if let Ok(tv1) = vser::to_typed(&v1) {
+        if let Verdict::Outside(r) = ctx.schema.verdict(&tv1, &R::root_args(&v1)) {
+            l.cnt(&format!("stability_reread_value_outside_domain{{{}}}", outside_class(&r)));
+            return;
+        }
+    }
     l.cnt("stability_judged");
-    strong(ctx, ops, &v1, case, " (re-read value)", nontrivial, l);
+    strong::<T, R>(ctx, ops, &v1, case, " (re-read value)", nontrivial, l);
 }
 
 // ---------------------------------------------------------------------------------------------
@@ -370,24 +586,31 @@ fn outside_class(reason: &str) -> &str {
     reason.split(':').next().unwrap_or(reason)
 }
 
-fn x2_case<T: Owned>(ctx: &Ctx, ops: &TypeOps, tape: &mut Tape, l: &mut Local) -> Option<Value> {
-    l.evals += 1;
+/// `min_dev`: tapes with fewer deviations were already judged by an earlier pass and are only
+/// executed (to discover their choice points), not judged or counted again.
+fn x2_case<T: Owned, R: Reader<T>>(ctx: &Ctx, ops: &TypeOps, tape: &mut Tape, min_dev: usize, l: &mut Local) -> Option<Value> {
     let v: T = {
-        let mut de = TapeDe::new(tape, &ctx.alpha, &ctx.schema.literal_counts);
+        let mut de = TapeDe::new(tape, &ctx.alpha, &ctx.schema.literal_counts, &ctx.schema.flag_alphabets);
         match guard(|| T::deserialize(&mut de)) {
             Ok(Ok(v)) => v,
             Ok(Err(e)) => {
+                l.evals += 1;
                 l.cnt("x2_not_constructible");
                 l.unjudged_panics.insert(format!("{} deserialize error: {}", ops.name, e));
                 return None;
             }
             Err(p) => {
+                l.evals += 1;
                 l.cnt("x2_not_constructible");
                 l.unjudged_panics.insert(format!("{} deserialize panic: {}", ops.name, p.kind()));
                 return None;
             }
         }
     };
+    if tape.deviations() < min_dev {
+        return None;
+    }
+    l.evals += 1;
     let tv = match vser::to_typed(&v) {
         Ok(tv) => tv,
         Err(e) => {
@@ -400,7 +623,7 @@ fn x2_case<T: Owned>(ctx: &Ctx, ops: &TypeOps, tape: &mut Tape, l: &mut Local) -
     let full = ops.full();
     let case = || json!({"source": "x2", "type": full, "tape": choices, "alphabet": tier, "value": tv});
     let nontrivial = tape.deviations() >= 1;
-    match ctx.schema.verdict(&tv) {
+    match ctx.schema.verdict(&tv, &R::root_args(&v)) {
         Verdict::Outside(r) => {
             l.cnt(&format!("outside_domain{{{}}}", outside_class(&r)));
             l.cnt("x2_outside_domain");
@@ -408,50 +631,145 @@ fn x2_case<T: Owned>(ctx: &Ctx, ops: &TypeOps, tape: &mut Tape, l: &mut Local) -
         Verdict::StabilityOnly(r) => {
             l.cnt("x2_stability_only");
             l.stability_reasons.insert(r);
-            stability(ctx, ops, &v, &case, nontrivial, l);
+            stability::<T, R>(ctx, ops, &v, &case, nontrivial, l);
         }
         Verdict::InDomain => {
             l.cnt("x2_in_domain");
-            strong(ctx, ops, &v, &case, "", nontrivial, l);
+            strong::<T, R>(ctx, ops, &v, &case, "", nontrivial, l);
         }
     }
     Some(tv)
 }
 
-fn x2_all<T: Owned>(ctx: &Ctx, ops: &TypeOps, l: &mut Local) {
-    let mut n = 0u64;
-    let r = explore(ctx.k, ctx.cap_per_type, |tape| {
-        let first = x2_case::<T>(ctx, ops, tape, l);
-        // determinism self-test on the first 32 tapes: same tape ⇒ same value
-        if n < 32 {
-            let mut t2 = Tape::new(&tape.choices.clone());
-            let mut scratch = Local::default();
-            let second = x2_case::<T>(ctx, ops, &mut t2, &mut scratch);
-            if first != second || t2.choices != tape.choices {
-                l.machinery.push(format!("{}: tape replay produced a different value", ops.full()));
+/// `vcore::explore` restricted to the subtree below `root` (same algorithm, same order): all tapes
+/// that extend `root` by deviations at later choice points, at most `bound` deviations in total.
+/// Used to spread one type's exploration over all cores (one task per first deviation).
+fn explore_from(
+    root: Vec<u32>,
+    bound: usize,
+    mut body: impl FnMut(&mut Tape) -> bool,
+) -> Result<ExploreStats, TapeDivergence> {
+    let mut st = ExploreStats::default();
+    let mut stack: Vec<Vec<u32>> = vec![root];
+    while let Some(prefix) = stack.pop() {
+        let mut t = Tape::new(&prefix);
+        let go = body(&mut t);
+        st.executions += 1;
+        if let Some(d) = t.diverged {
+            return Err(TapeDivergence(d));
+        }
+        if t.choices.len() < prefix.len() {
+            return Err(TapeDivergence(format!(
+                "body consumed {} choices but prefix has {}",
+                t.choices.len(),
+                prefix.len()
+            )));
+        }
+        st.max_depth = st.max_depth.max(t.choices.len());
+        if !go {
+            st.capped = true;
+            break;
+        }
+        let used = prefix.iter().filter(|c| **c != 0).count();
+        if used >= bound {
+            continue;
+        }
+        for i in (prefix.len()..t.choices.len()).rev() {
+            for alt in (1..t.arity[i]).rev() {
+                let mut p = t.choices[..i].to_vec();
+                p.push(alt);
+                stack.push(p);
             }
         }
-        if n == 1 && l.samples.is_empty() {
-            if let Some(v) = &first {
-                l.samples.push(json!({"type": ops.full(), "tape": tape.choices, "value": v}));
-            }
+    }
+    Ok(st)
+}
+
+/// One pass over all tapes with ≤ k deviations; tapes with < min_dev deviations are executed but not
+/// judged (they were judged by an earlier pass).  Returns whether the pass was complete.
+fn x2_pass<T: Owned, R: Reader<T>>(ctx: &Ctx, ops: &TypeOps, k: usize, min_dev: usize, l: &mut Local) -> bool {
+    // the all-default tape: also yields the choice points for the first deviation
+    let mut t = Tape::new(&[]);
+    let first = x2_case::<T, R>(ctx, ops, &mut t, min_dev, l);
+    if min_dev == 0 && l.samples.is_empty() {
+        if let Some(v) = &first {
+            l.samples.push(json!({"type": ops.full(), "tape": t.choices, "value": v}));
         }
-        n += 1;
-        true
-    });
-    match r {
-        Ok(st) => {
-            if st.capped {
-                l.capped.push(format!("{}: X2 capped at {} values (k={})", ops.full(), ctx.cap_per_type, ctx.k));
-            }
+    }
+    if k == 0 {
+        return true;
+    }
+    let mut roots: Vec<Vec<u32>> = vec![];
+    for i in 0..t.choices.len() {
+        for alt in 1..t.arity[i] {
+            let mut p = vec![0u32; i];
+            p.push(alt);
+            roots.push(p);
         }
-        Err(d) => l.machinery.push(format!("{}: tape divergence: {}", ops.full(), d.0)),
+    }
+    let parts: Vec<(Local, bool)> = roots
+        .par_iter()
+        .map(|root| {
+            let mut l = Local::default();
+            let mut n = 0u64;
+            let r = explore_from(root.clone(), k, |tape| {
+                let first = x2_case::<T, R>(ctx, ops, tape, min_dev, &mut l);
+                // determinism self-test on the first tapes of every subtree: same tape ⇒ same value
+                if n < 4 {
+                    let mut t2 = Tape::new(&tape.choices.clone());
+                    let mut scratch = Local::default();
+                    let second = x2_case::<T, R>(ctx, ops, &mut t2, min_dev, &mut scratch);
+                    if first != second || t2.choices != tape.choices {
+                        l.machinery.push(format!("{}: tape replay produced a different value", ops.full()));
+                    }
+                }
+                n += 1;
+                n < ctx.cap_per_type
+            });
+            let complete = match r {
+                Ok(st) => {
+                    if st.capped {
+                        l.capped.push(format!(
+                            "{}: X2 pass k={k} capped at {} tapes below first deviation {:?}",
+                            ops.full(),
+                            ctx.cap_per_type,
+                            root
+                        ));
+                    }
+                    !st.capped
+                }
+                Err(d) => {
+                    l.machinery.push(format!("{}: tape divergence: {}", ops.full(), d.0));
+                    false
+                }
+            };
+            (l, complete)
+        })
+        .collect();
+    let mut complete = true;
+    for (part, c) in parts {
+        complete &= c;
+        l.merge(part);
+    }
+    complete
+}
+
+/// Pass 1: every tape with ≤ k deviations (all types).  Pass 2 (only when pass 1 produced at most
+/// `ctx.extend_below` values): every tape with exactly k+1 deviations.  The per-type bound reached
+/// is recorded in the evidence (`per_type[..].k_completed`).
+fn x2_all<T: Owned, R: Reader<T>>(ctx: &Ctx, ops: &TypeOps, l: &mut Local) {
+    let complete = x2_pass::<T, R>(ctx, ops, ctx.k, 0, l);
+    l.k_completed = if complete { ctx.k } else { ctx.k.saturating_sub(1) };
+    if complete && l.evals <= ctx.extend_below {
+        if x2_pass::<T, R>(ctx, ops, ctx.k + 1, ctx.k + 1, l) {
+            l.k_completed = ctx.k + 1;
+        }
     }
 }
 
-fn x2_one<T: Owned>(ctx: &Ctx, ops: &TypeOps, prefix: &[u32], l: &mut Local) {
+fn x2_one<T: Owned, R: Reader<T>>(ctx: &Ctx, ops: &TypeOps, prefix: &[u32], l: &mut Local) {
     let mut tape = Tape::new(prefix);
-    x2_case::<T>(ctx, ops, &mut tape, l);
+    x2_case::<T, R>(ctx, ops, &mut tape, 0, l);
     if let Some(d) = tape.diverged {
         l.machinery.push(format!("replay tape diverged: {d}"));
     }
@@ -465,23 +783,31 @@ fn x2_one<T: Owned>(ctx: &Ctx, ops: &TypeOps, prefix: &[u32], l: &mut Local) {
 /// strong oracle whatever the schema predicates say (their verdict is recorded as a self-check of
 /// the predicates).  Otherwise (a byte blob tried against every type) values the schema calls
 /// self-contradictory are not judged.
-fn parsed<T: Owned>(ctx: &Ctx, ops: &TypeOps, bytes: &[u8], label: &str, trusted_consistent: bool, l: &mut Local) -> bool {
-    let v = match guard(|| T::read(FontData::new(bytes))) {
+fn parsed<T: Owned, R: Reader<T>>(
+    ctx: &Ctx,
+    ops: &TypeOps,
+    bytes: &[u8],
+    label: &str,
+    trusted_consistent: bool,
+    font: Option<&FontArgs>,
+    l: &mut Local,
+) -> bool {
+    let v = match guard(|| R::read(bytes, None, font)) {
         Ok(Ok(v)) => v,
         Ok(Err(_)) => return false,
         Err(p) => {
             ctx.run.violation(
                 &format!("{} read panics: {} in {}", ops.name, p.kind(), p.site()),
                 &format!("{} on {label}", p.message),
-                json!({"source": "parsed", "type": ops.full(), "label": label, "bytes": hex(bytes), "trusted": trusted_consistent}),
+                json!({"source": "parsed", "type": ops.full(), "label": label, "bytes": hex(bytes), "trusted": trusted_consistent, "font_args": font.map(|f| json!([f.num_glyphs, f.number_of_h_metrics, f.number_of_long_ver_metrics]))}),
             );
             return false;
         }
     };
     l.evals += 1;
     let full = ops.full();
-    let case = || json!({"source": "parsed", "type": full, "label": label, "bytes": hex(bytes), "trusted": trusted_consistent});
-    let verdict = vser::to_typed(&v).map(|tv| ctx.schema.verdict(&tv));
+    let case = || json!({"source": "parsed", "type": full, "label": label, "bytes": hex(bytes), "trusted": trusted_consistent, "font_args": font.map(|f| json!([f.num_glyphs, f.number_of_h_metrics, f.number_of_long_ver_metrics]))});
+    let verdict = vser::to_typed(&v).map(|tv| ctx.schema.verdict(&tv, &R::root_args(&v)));
     match (&verdict, trusted_consistent) {
         (Ok(Verdict::Outside(r)), true) => {
             l.cnt("parsed_corpus_value_outside_schema_predicates");
@@ -495,8 +821,17 @@ fn parsed<T: Owned>(ctx: &Ctx, ops: &TypeOps, bytes: &[u8], label: &str, trusted
         }
         _ => {}
     }
+    if trusted_consistent {
+        if let Ok(Err(report)) = guard(|| v.validate()) {
+            // a real font's table whose owned form fails validation: outside the property's
+            // precondition, listed for information
+            if l.predicate_disagreements.len() < 8 {
+                l.predicate_disagreements.push(json!({"type": full, "label": label, "validate_rejects": format!("{report:?}").chars().take(300).collect::<String>()}));
+            }
+        }
+    }
     l.cnt(if trusted_consistent { "parsed_corpus_values" } else { "parsed_blob_values" });
-    strong(ctx, ops, &v, &case, " (parsed value)", true, l);
+    strong::<T, R>(ctx, ops, &v, &case, " (parsed value)", true, l);
     true
 }
 
@@ -517,7 +852,8 @@ fn body(run: &Run, replay: Option<&Value>) {
     run.assume("schema consistency is computed from resources/codegen_inputs/*.rs by the harness build script (count relations, literal counts, plain version vs since_version, if_flag presence, declared flag bits, Pending* placeholders); values outside are counted, never judged");
     run.assume("PartialEq of the owned types is the equality of the property; the serde rendering is only used to name the first differing field and to evaluate the schema predicates");
     run.assume("serde's derived Deserialize constructs exactly the value described by the visited fields (trusted: serde, serde_json, vcore explorer)");
-    let reg = registry();
+    let mut reg = registry();
+    reg.extend(adaptors());
     if let Some(case) = replay {
         let tier = case["alphabet"].as_str().unwrap_or("quick");
         let ctx = Ctx {
@@ -527,6 +863,7 @@ fn body(run: &Run, replay: Option<&Value>) {
             tier_name: if tier == "thorough" { "thorough" } else { "quick" },
             k: 0,
             cap_per_type: 1,
+            extend_below: 0,
         };
         let ty = case["type"].as_str().unwrap_or("");
         let Some(ops) = reg.iter().find(|o| o.full() == ty) else {
@@ -544,12 +881,18 @@ fn body(run: &Run, replay: Option<&Value>) {
             }
             Some("parsed") => {
                 let bytes = unhex(case["bytes"].as_str().unwrap_or(""));
+                let fa = case["font_args"].as_array().map(|a| FontArgs {
+                    num_glyphs: a[0].as_u64().unwrap_or(0) as u16,
+                    number_of_h_metrics: a[1].as_u64().unwrap_or(0) as u16,
+                    number_of_long_ver_metrics: a[2].as_u64().unwrap_or(0) as u16,
+                });
                 (ops.parsed)(
                     &ctx,
                     ops,
                     &bytes,
                     case["label"].as_str().unwrap_or(""),
                     case["trusted"].as_bool().unwrap_or(true),
+                    fa.as_ref(),
                     &mut l,
                 );
             }
@@ -571,17 +914,40 @@ fn body(run: &Run, replay: Option<&Value>) {
         alpha: alphabets(tier_name),
         tier_name: if tier_name == "thorough" { "thorough" } else { "quick" },
         k: std::env::var("C04_K").ok().and_then(|s| s.parse().ok()).unwrap_or(run.tier.pick(2, 3)),
-        cap_per_type: run.tier.pick(400_000, 6_000_000),
+        cap_per_type: run.tier.pick(2_000_000, 50_000_000),
+        extend_below: std::env::var("C04_EXTEND").ok().and_then(|s| s.parse().ok()).unwrap_or(run.tier.pick(2_500, 8_000)),
     };
-    run.bound("x2_deviation_bound_k", json!(ctx.k));
-    run.bound("x2_cap_per_type", json!(ctx.cap_per_type));
+    run.bound("x2_deviation_bound_k_all_types", json!(ctx.k));
+    run.bound("x2_deviation_bound_k_plus_1_for_types_with_at_most_this_many_values_at_k", json!(ctx.extend_below));
+    run.bound("x2_cap_tapes_per_first_deviation_subtree", json!(ctx.cap_per_type));
     run.bound("x2_alphabets", ctx.alpha.describe());
     run.bound("x2_max_nesting_depth", json!(tde::MAX_DEPTH));
     run.count("types_registered", reg.len() as u64);
+    run.count("types_registered_with_hand_adaptor", reg.iter().filter(|o| o.reader != "FontRead").count() as u64);
+    run.extra(
+        "hand_adaptors_for_read_with_args_types",
+        json!(reg.iter().filter(|o| o.reader != "FontRead").map(|o| json!({"type": o.full(), "arguments_from": o.reader})).collect::<Vec<_>>()),
+    );
     run.extra("schema_survey", ctx.schema.survey.clone());
     run.extra(
         "opaque_relation_types",
         json!(OPAQUE_RELATION_TYPES.iter().map(|(t, w)| json!({"type": t, "why": w})).collect::<Vec<_>>()),
+    );
+    run.extra(
+        "hint_fields_not_compared_when_written_as_none",
+        json!(domain::HINT_FIELDS.iter().map(|(s, f, w)| json!({"field": format!("{s}.{f}"), "why": w})).collect::<Vec<_>>()),
+    );
+    run.extra(
+        "flag_bits_fixed_at_one_by_the_spec",
+        json!(domain::BITS_FIXED_AT_ONE.iter().map(|(t, b, w)| json!({"flags": t, "bits": b, "source": w})).collect::<Vec<_>>()),
+    );
+    run.extra(
+        "font_read_types_skipped_for_lack_of_serde",
+        json!(NO_SERDE_TYPES.iter().map(|(m, t)| format!("{m}::{t}")).collect::<Vec<_>>()),
+    );
+    run.extra(
+        "tag_selected_variant_relations",
+        json!(domain::TAG_SELECTED_VARIANTS.iter().map(|(p, t, path, map, other)| json!({"parent": p, "tag_field": t, "enum_at": path, "tag_prefix_to_variant": map.iter().map(|(a, b)| format!("{a}→{b}")).collect::<Vec<_>>(), "other_tags": other})).collect::<Vec<_>>()),
     );
     run.extra(
         "whole_remainder_array_fields_compared_on_written_prefix",
@@ -589,7 +955,11 @@ fn body(run: &Run, replay: Option<&Value>) {
     );
     run.extra(
         "read_with_args_table_types_not_in_registry",
-        json!(READ_WITH_ARGS_TYPES.iter().map(|(m, t)| format!("{m}::{t}")).collect::<Vec<_>>()),
+        json!(READ_WITH_ARGS_TYPES
+            .iter()
+            .filter(|(m, t)| !reg.iter().any(|o| o.module == *m && o.name == *t))
+            .map(|(m, t)| format!("{m}::{t}"))
+            .collect::<Vec<_>>()),
     );
 
     let total = Mutex::new(Local::default());
@@ -607,6 +977,7 @@ fn body(run: &Run, replay: Option<&Value>) {
         let mut l = Local::default();
         (ops.x2)(&ctx, ops, &mut l);
         let row = json!({
+            "k_completed": l.k_completed,
             "x2_values": l.evals,
             "in_domain": l.counters.get("x2_in_domain").copied().unwrap_or(0),
             "stability_only": l.counters.get("x2_stability_only").copied().unwrap_or(0),
@@ -619,10 +990,18 @@ fn body(run: &Run, replay: Option<&Value>) {
         total.lock().unwrap().merge(l);
     });
     run.extra("x2_wall_s", json!(run.elapsed() - t0));
+    {
+        let pt = per_type.lock().unwrap();
+        let mut by_k: BTreeMap<String, u64> = BTreeMap::new();
+        for row in pt.values() {
+            *by_k.entry(format!("k={}", row["k_completed"])).or_insert(0) += 1;
+        }
+        run.extra("x2_types_by_deviation_bound_completed", json!(by_k));
+    }
 
     // ---- source 2a: corpus tables ---------------------------------------------------------
     let t1 = run.elapsed();
-    let mut jobs: Vec<(usize, String, Vec<u8>)> = vec![];
+    let mut jobs: Vec<(usize, String, Vec<u8>, FontArgs)> = vec![];
     let mut seen = HashSet::new();
     for (path, bytes) in corpus_fonts() {
         if !want("corpus") {
@@ -633,6 +1012,12 @@ fn body(run: &Run, replay: Option<&Value>) {
             Err(_) => continue,
         };
         for (fi, font) in fonts.iter().enumerate() {
+            use read_fonts::TableProvider;
+            let fa = FontArgs {
+                num_glyphs: font.maxp().map(|m| m.num_glyphs()).unwrap_or(0),
+                number_of_h_metrics: font.hhea().map(|h| h.number_of_h_metrics()).unwrap_or(0),
+                number_of_long_ver_metrics: font.vhea().map(|h| h.number_of_long_ver_metrics()).unwrap_or(0),
+            };
             for rec in font.table_directory.table_records() {
                 let tag = rec.tag();
                 let Some(data) = font.table_data(tag) else { continue };
@@ -641,9 +1026,10 @@ fn body(run: &Run, replay: Option<&Value>) {
                     if ops.tag == Some(tag_s.as_str()) {
                         let mut h = Fnv::new();
                         h.u64(i as u64);
+                        h.u64(fa.num_glyphs as u64 | (fa.number_of_h_metrics as u64) << 16 | (fa.number_of_long_ver_metrics as u64) << 32);
                         h.bytes(data.as_bytes());
                         if seen.insert(h.finish()) {
-                            jobs.push((i, format!("{path}#{fi}:{tag_s}"), data.as_bytes().to_vec()));
+                            jobs.push((i, format!("{path}#{fi}:{tag_s}"), data.as_bytes().to_vec(), fa));
                         }
                     }
                 }
@@ -651,10 +1037,10 @@ fn body(run: &Run, replay: Option<&Value>) {
         }
     }
     run.count("corpus_tables_distinct", jobs.len() as u64);
-    jobs.par_iter().for_each(|(i, label, bytes)| {
+    jobs.par_iter().for_each(|(i, label, bytes, fa)| {
         let mut l = Local::default();
         let ops = &reg[*i];
-        if !(ops.parsed)(&ctx, ops, bytes, label, true, &mut l) {
+        if !(ops.parsed)(&ctx, ops, bytes, label, true, Some(fa), &mut l) {
             l.cnt("corpus_table_unreadable");
         }
         total.lock().unwrap().merge(l);
@@ -662,16 +1048,49 @@ fn body(run: &Run, replay: Option<&Value>) {
     run.extra("corpus_wall_s", json!(run.elapsed() - t1));
 
     // ---- source 2b: font-test-data blobs × every type --------------------------------------
+    // A blob is tried against the registered types its name designates (mechanical rule: the
+    // lower-cased blob name without '_' / a trailing "table" equals the lower-cased type name, or the
+    // type name followed by "format<N>"; IFT mapping-table builders `*_format1()` / `*_format2()` go to
+    // ift::PatchMapFormat1/2 and ift::Ift).  Trying every blob against every type is NOT done: garbage
+    // such as a whole font file read as base::BaseScript makes the owned conversion allocate without
+    // bound (a hostile-input matter, properties C01/C02), which needs worker isolation.
     let blobs = if want("blobs") { test_data_blobs() } else { vec![] };
     run.count("test_data_blobs", blobs.len() as u64);
+    let unmatched = Mutex::new(BTreeSet::new());
     blobs.par_iter().for_each(|(label, bytes)| {
         let mut l = Local::default();
+        let (module, short) = label.split_once("::").unwrap_or(("", label));
+        let bname: String = short
+            .trim_end_matches("()")
+            .to_ascii_lowercase()
+            .replace('_', "");
+        let bname = bname.trim_end_matches("table").to_string();
+        let mut matched = false;
         for ops in reg.iter() {
+            let lname = ops.name.to_ascii_lowercase();
+            let by_name = bname == lname
+                || bname
+                    .strip_prefix(&format!("{lname}format"))
+                    .map(|r| !r.is_empty() && r.chars().all(|c| c.is_ascii_digit()))
+                    .unwrap_or(false);
+            let by_ift = module == "ift"
+                && ops.module == "ift"
+                && ((bname.contains("format1") && (ops.name == "PatchMapFormat1" || ops.name == "Ift"))
+                    || (bname.contains("format2") && (ops.name == "PatchMapFormat2" || ops.name == "Ift")));
+            if !(by_name || by_ift) {
+                continue;
+            }
             l.cnt("blob_type_pairs_tried");
-            (ops.parsed)(&ctx, ops, bytes, label, false, &mut l);
+            if (ops.parsed)(&ctx, ops, bytes, label, false, None, &mut l) {
+                matched = true;
+            }
+        }
+        if !matched {
+            unmatched.lock().unwrap().insert(label.to_string());
         }
         total.lock().unwrap().merge(l);
     });
+    run.extra("test_data_blobs_without_a_name_matched_readable_type", json!(*unmatched.lock().unwrap()));
 
     // ---- evidence ---------------------------------------------------------------------------
     let l = std::mem::take(&mut *total.lock().unwrap());
@@ -692,6 +1111,6 @@ fn body(run: &Run, replay: Option<&Value>) {
     }
     run.extra("stability_only_relations_derived_from_schema", json!(l.stability_reasons));
     run.extra("unjudged_panics_and_construction_failures", json!(l.unjudged_panics));
-    run.extra("corpus_values_the_schema_predicates_reject", json!(l.predicate_disagreements));
+    run.extra("corpus_values_rejected_by_schema_predicates_or_by_validate", json!(l.predicate_disagreements));
     run.extra("per_type", json!(*per_type.lock().unwrap()));
 }
